@@ -471,6 +471,26 @@ func (e *Engine) intrinsic(st *State, fn *ssa.Function, args []Value, ci ssa.Val
 		}
 		e.finish(st, ci, Bool(re.V.(*regexp.Regexp).Match(b)), fd)
 		return true
+	case "(*regexp.Regexp).FindStringSubmatch":
+		re, ok := args[0].(*Native)
+		if !ok {
+			panic(goPanic{"runtime error: nil pointer dereference (regexp)"})
+		}
+		in, ok := args[1].(string)
+		if !ok {
+			panic(unsupported("regexp match on symbolic input"))
+		}
+		ms := re.V.(*regexp.Regexp).FindStringSubmatch(in)
+		if ms == nil {
+			e.finish(st, ci, &Slice{Nil: true}, fd)
+			return true
+		}
+		arr := &Array{E: make([]Value, len(ms))}
+		for i, m := range ms {
+			arr.E[i] = m
+		}
+		e.finish(st, ci, &Slice{Obj: st.alloc(arr), Len: len(ms), Cap: len(ms)}, fd)
+		return true
 	case "github.com/cockroachdb/errors.WithStack":
 		e.finish(st, ci, args[0], fd)
 		return true
